@@ -235,11 +235,61 @@ def _zmask_builders(flow):
 
 
 def B1_zmask(rep, flow):
-    builders = _zmask_builders(flow)
-    if not builders:
-        raise AnalysisError(f"{A_ZMASK}: no `return Pauli((z, x))` found in it or in the helpers it delegates to (anchor vanished)")
-    for f in builders:
-        _B1_zmask_one(rep, flow, f)
+    try:
+        builders = _zmask_builders(flow)
+        if not builders:
+            raise AnalysisError(f"{A_ZMASK}: no `return Pauli((z, x))` found in it or in the helpers it delegates to (anchor vanished)")
+        for f in builders:
+            _B1_zmask_one(rep, flow, f)
+    except AnalysisError as ex:
+        if not _B1_evaluate(rep, flow, str(ex)):
+            raise
+
+
+def _B1_evaluate(rep, flow, why):
+    """a mask builder written in a form the qualifier algebra does not know: evaluated on its whole domain - every mask
+    of every register size 1..6 - with the library's Pauli constructor replaced by a recorder of its (z, x) argument"""
+    f = flow.prog.func(A_ZMASK)
+    ce = consteval.CE(flow.prog, max_steps=50_000_000)
+    seen = []
+
+    def fake_pauli(arg=None, *a, **k):
+        seen.append(arg)
+        return ("pauli-stub", arg)
+    ce.ext_stubs = {"Pauli": fake_pauli}
+
+    def bits(v):
+        if isinstance(v, consteval.Mat) and v.ndim == 1:
+            return [int(bool(x)) for x in v.d]
+        if isinstance(v, (list, tuple)) and all(isinstance(x, (int, bool)) for x in v):
+            return [int(bool(x)) for x in v]
+        return None
+    n_ok = 0
+    for n in range(1, 7):
+        for mask in range(2 ** n):
+            del seen[:]
+            try:
+                res = ce.call_func(f, [n, mask], {})
+            except consteval.CERaise as ex:
+                rep.finding("B1", f"{A_ZMASK}:raise", f"{ex.where or f.module.rel}: {f.qualname}({n}, {mask}) raises {ex.etype} ({ex.msg[:60]})")
+                return True
+            except AnalysisError:
+                return False
+            if not (isinstance(res, tuple) and len(res) == 2 and res[0] == "pauli-stub" and isinstance(res[1], (tuple, list)) and len(res[1]) == 2):
+                return False
+            z, x = bits(res[1][0]), bits(res[1][1])
+            if z is None or x is None:
+                return False
+            want = [(mask >> j) & 1 for j in range(n)]
+            if z != want or any(x):
+                if z == want[::-1] and not any(x):
+                    rep.finding("B1", f"{A_ZMASK}:order", f"{f.module.rel} {f.qualname}({n}, {mask}): z array {z} holds bit n-1-j of the mask at position j (required {want}): the reported Pauli is the mirror image of the measured one")
+                else:
+                    rep.finding("B1", f"{A_ZMASK}:value", f"{f.module.rel} {f.qualname}({n}, {mask}): builds z = {z}, x = {x}; required z = {want} (position j = bit j of the mask), x all zero")
+                return True
+            n_ok += 1
+    rep.ok("B1", 1, nontrivial="zmask-evaluated", sample=f"mask builder outside the qualifier algebra ({why[:80]}); evaluated on all {n_ok} (size, mask) pairs for sizes 1..6: position j = bit j, x = 0")
+    return True
 
 
 def _B1_zmask_one(rep, flow, f):
